@@ -29,11 +29,18 @@ def cases(ctx, n_graphs, max_steps):
 def run(ctx):
     n_graphs = 12 if ctx.quick else 150
     ctx.bound("%d random valid rGFAs (2-5 reference segments of length 1-3 per chromosome, 0-2 bubbles, adjacent/separated haplotype "
-              "segments, optional inversion/self link, 1-2 chromosomes) x walks of <= 4 steps (<= 60 sampled) x <= 6 (start,end) pairs" % n_graphs)
+              "segments, optional inversion/self link, 1-2 chromosomes; every second file with its S / L lines shuffled) x walks of <= 4 steps (<= 60 sampled) x <= 6 (start,end) pairs" % n_graphs)
     for gi, g, recs in cases(ctx, n_graphs, 4):
         d = ctx.dir("c01")
         gfa = os.path.join(d, "g.gfa")
-        g.write(gfa)
+        order = None
+        if gi % 2 == 1:
+            # an rGFA need not list its lines in any order: shuffled S / L lines, so the segments of a contig are NOT in SO order in the file
+            # (added after seeded change C01-4)
+            order = list(range(len(g.lines())))
+            ctx.rng.shuffle(order)
+        g.write(gfa, order=order)
+        g.written_lines = [g.lines()[i] for i in order] if order is not None else g.lines()
         ugaf = os.path.join(d, "u.gaf")
         write_lines(ugaf, [r[3] for r in recs])
         try:
@@ -91,7 +98,7 @@ def check_pair(ctx, g, before, after, section):
 
 
 def _case(g, lines, fmt="stable"):
-    return {"gfa": g.lines(), "gaf": list(lines) if isinstance(lines[0], str) else ["\t".join(l) for l in lines], "format": fmt}
+    return {"gfa": getattr(g, "written_lines", None) or g.lines(), "gaf": list(lines) if isinstance(lines[0], str) else ["\t".join(l) for l in lines], "format": fmt}
 
 
 def replay(ctx, rec):
